@@ -1,6 +1,6 @@
 SPECIFICATION Spec
 CONSTANTS
-  NCalls = 27
+  NCalls = 29
   MaxLen = 4
 INVARIANT ModesRestored
 INVARIANT NoLeak
